@@ -1,7 +1,7 @@
 (* Spec/Meaning.v, extracted.
 
    meaning <expr> "<wordbreaks>" (("<command text>" "<output line>"...)...) (((w...) "p")...)
-     -> ((none A) | (some (required...) (allowed...) A) ...)      A = three flags 0/1: Meaning.ambiguous_run, KnownC01.piece_boundary, KnownC01.last_word_escape
+     -> ((none A) | (some (required...) (allowed...) A) ...)      A = four flags 0/1: Meaning.ambiguous_run, KnownC01.piece_boundary, KnownC01.last_word_escape, KnownC01.greedy_shadow
    paths <expr> (<commands as above>) <maxlen> <cap> ("vocabulary word"...)
      -> (((w...) ...))   word sequences (length <= maxlen) that Meaning.matched accepts, one or two
                          per distinct residual set and depth (harness-side enumeration over Meaning.step)
@@ -33,7 +33,8 @@ let () =
                   let b x = if x then "1" else "0" in
                   let amb = Atom (b (M.ambiguous_run en (M.start e) ws)
                                   ^ b (Extracted.KnownC01.piece_boundary e en ws)
-                                  ^ b (Extracted.KnownC01.last_word_escape e en ws)) in
+                                  ^ b (Extracted.KnownC01.last_word_escape e en ws)
+                                  ^ b (Extracted.KnownC01.greedy_shadow e en ws)) in
                   (match M.complete e en ws p with
                    | None -> List [Atom "none"; amb]
                    | Some (req, al) ->
